@@ -2,7 +2,7 @@ import os
 META = dict(
     engine='cosched',
     technique='stateless model checking: preemption-bounded exhaustive schedule enumeration (CHESS) of the real local termination detector driven by token-discipline scripts',
-    level_text='Every schedule with <= b preemptions (b=2 quick, 3 thorough; scheduling points = every instrumented access to nb_tasks, nb_pending_actions and tdm.monitor) of 2-3 thread scripts (8 quick, 15 thorough: PTG start-up with spawning, zero crossings while busy, ready() against the last task/action, set_nb_tasks/set_runtime_actions variants, state pollers, DTD-like insertion before ready) is executed on the real module; in each the termination callback must run exactly once, only after ready() and with no unit of work held and both counters zero, taskpool_state must not return TERMINATED before the callback returned, and termination must have been reported when all threads are done.',
+    level_text='Every schedule with <= b preemptions (b=2 quick, 3 thorough; scheduling points = every instrumented access to nb_tasks, nb_pending_actions and tdm.monitor) of 2-3 thread scripts (7 quick, 17 thorough: PTG start-up with spawning, zero crossings while busy, ready() against the last task/action, set_nb_tasks/set_runtime_actions variants, state pollers, DTD-like insertion before ready) is executed on the real module; in each the termination callback must run exactly once, only after ready() and with no unit of work held and both counters zero, taskpool_state must not return TERMINATED before the callback returned, and termination must have been reported when all threads are done.',
     level_note='Sequential consistency at instrumented accesses; <= 3 threads, <= 4 operations per thread; scripts respect the usage contract (after ready() work is added only by a holder of work; before ready() anybody may add work, as the DTD interface does; set_* only by the owner of all units of that counter). Weak-memory effects and the object reference count of the taskpool are outside the check.',
 )
 RULE = ("cosched: every schedule of each 2-3 thread token-discipline script over the real termdet_local module with at most b "
@@ -25,10 +25,11 @@ def _run_each(ctx, exe, bound, budget, env, label, cost):
     t_end = time.time() + budget
     for n in names:
         left = max(3, int(t_end - time.time()))
-        args = ['--bound', str(bound), '--scenario', n, '--jobs', str(vlib.NJOBS), '--outdir', vlib.OUT, '--deadline', str(left)]
+        jobs = max(2, min(vlib.NJOBS, cost.get(n, 10**9) // 60))   # do not fork 16 workers for a few dozen schedules
+        args = ['--bound', str(bound), '--scenario', n, '--jobs', str(jobs), '--outdir', vlib.OUT, '--deadline', str(left)]
         ctx.run_engine(exe, args, label='%s.%s' % (label, n), timeout=left + 600, env=env)
 # measured number of schedules (bound 2), used only to order the scenarios
-COST = dict(spawn_tree_2workers=102, busy_zero_crossings_2t=137, dtd_min_master_worker=160, ready_vs_last_action_and_task=620,
+COST = dict(set_nb_tasks_2t=150, task_to_action_2t=150, spawn_tree_2workers=102, busy_zero_crossings_2t=137, dtd_min_master_worker=160, ready_vs_last_action_and_task=620,
             ready_vs_last_task_polled=637, set_runtime_actions0_vs_ready=637, task_to_action=1180, set_runtime_actions_then_release=1494,
             set_nb_tasks_owner=1573, set_nb_tasks_holding_action=1765, actions_fanout=2468, ptg_add_then_ready=2726,
             busy_zero_crossings=2996, dtd_insert_then_ready=3400, ptg_startup_spawn=4212)
